@@ -494,6 +494,41 @@ func (sc *scenario) allQueries() []query {
 	return qs
 }
 
+// queryFrom builds a lookup of the given kind whose arguments are the components of a universe triple.
+func (sc *scenario) queryFrom(t *tval, k int) query {
+	si, pi, oi := 0, 0, 0
+	for i, n := range sc.nodeIx {
+		if n == t.s {
+			si = i
+		}
+	}
+	for i, p := range sc.preds {
+		if p == t.p {
+			pi = i
+		}
+	}
+	for i, o := range sc.objs {
+		if o == t.o {
+			oi = i
+		}
+	}
+	switch k {
+	case 0, 8:
+		return query{k, si, pi}
+	case 1, 9:
+		return query{k, pi, oi}
+	case 2:
+		return query{k, si, oi}
+	case 3, 5:
+		return query{k, si, 0}
+	case 4, 7:
+		return query{k, oi, 0}
+	case 6:
+		return query{k, pi, 0}
+	}
+	return query{10, 0, 0}
+}
+
 const chanCap = 256
 
 func errCode(err error) uint64 {
@@ -574,12 +609,25 @@ func (sc *scenario) runQuery(g storage.Graph, q query, lo *storage.LookupOptions
 	return append([]uint64{0, uint64(cnt)}, body...)
 }
 
+// result statistics of the lookups digested so far: [empty, non-empty, error, elements]
+var lkStats [4]int
+
 func (sc *scenario) digestState(objs []storage.Graph, qs []query, los []lopts) uint64 {
 	h := uint64(0)
 	for _, g := range objs {
 		for _, q := range qs {
 			for _, lo := range los {
-				h = dlist(h, sc.runQuery(g, q, lo.build()))
+				enc := sc.runQuery(g, q, lo.build())
+				switch {
+				case enc[0] != 0:
+					lkStats[2]++
+				case enc[1] == 0:
+					lkStats[0]++
+				default:
+					lkStats[1]++
+					lkStats[3] += int(enc[1])
+				}
+				h = dlist(h, enc)
 			}
 		}
 	}
@@ -736,6 +784,17 @@ func (w *world) observe(res int) jobs {
 	return ob
 }
 
+// nonEmpty: the graph objects whose listing (as just observed) is not empty
+func nonEmpty(objs []storage.Graph, ob jobs) []storage.Graph {
+	var out []storage.Graph
+	for i, g := range objs {
+		if len(ob.Graphs[i][1].([]int)) > 0 {
+			out = append(out, g)
+		}
+	}
+	return out
+}
+
 // ---------------------------------------------------------------- generators
 func (w *world) randomOp(r *rand.Rand, stored map[int]map[int]bool) opx {
 	sc := w.sc
@@ -787,31 +846,39 @@ func (w *world) randomOp(r *rand.Rand, stored map[int]map[int]bool) opx {
 func (sc *scenario) randomLopts(r *rand.Rand) lopts {
 	lo := lopts{}
 	pg := []int{-1, 0, 1, 2, 3}
-	if r.Intn(3) != 0 {
+	if r.Intn(2) == 0 {
 		lo.Max = pg[r.Intn(5)]
 		lo.Offset = pg[r.Intn(5)]
-	}
-	bound := func() *int64 {
-		if len(sc.bounds) == 0 || r.Intn(3) == 0 {
-			return nil
+		if r.Intn(2) == 0 && lo.Max > 0 && lo.Offset > 1 { // first pages are the non-empty ones
+			lo.Offset = r.Intn(2)
 		}
-		b := sc.bounds[r.Intn(len(sc.bounds))]
-		return &b
 	}
-	if r.Intn(4) != 0 {
-		lo.Lower = bound()
-		lo.Upper = bound()
+	nb := len(sc.bounds)
+	if nb > 0 && r.Intn(3) != 0 {
+		if r.Intn(3) != 0 { // a window that is usually non-empty: lower from the lower half, upper from the upper half
+			if r.Intn(4) != 0 {
+				b := sc.bounds[r.Intn((nb+1)/2)]
+				lo.Lower = &b
+			}
+			if r.Intn(4) != 0 {
+				b := sc.bounds[nb/2+r.Intn(nb-nb/2)]
+				lo.Upper = &b
+			}
+		} else { // any pair, also lower > upper
+			a, b := sc.bounds[r.Intn(nb)], sc.bounds[r.Intn(nb)]
+			lo.Lower, lo.Upper = &a, &b
+		}
 	}
-	if r.Intn(4) == 0 {
+	if r.Intn(5) == 0 {
 		lo.Latest = true
 	}
-	if r.Intn(10) < 6 {
+	if (!lo.Latest && r.Intn(10) < 6) || (lo.Latest && r.Intn(8) == 0) {
 		op := r.Intn(3)
 		f := 1 + r.Intn(2)
-		if r.Intn(8) == 0 {
+		if r.Intn(14) == 0 {
 			op = 3
 		}
-		if r.Intn(8) == 0 {
+		if r.Intn(14) == 0 {
 			f = []int{0, 3}[r.Intn(2)]
 		}
 		lo.Filter = []int{op, f}
@@ -877,6 +944,7 @@ type histOut struct {
 	PagesBad []pageBad `json:"pages_bad"`
 	Pages    int       `json:"pages_checked"`
 	Lookups  int       `json:"lookups"`
+	LkStats  [4]int    `json:"lookup_stats"` // empty, non-empty, error, elements returned
 }
 
 type jstep struct {
@@ -888,6 +956,7 @@ func histSeed(seed int64, idx int) int64 { return seed*1000003 + int64(idx)*7919
 
 func genHistory(seed int64, idx int, maxops int, usize int, c02, c09 bool, uptoStep int) (*world, histOut, []opx) {
 	r := rand.New(rand.NewSource(histSeed(seed, idx)))
+	lkStats = [4]int{}
 	sc := randomScenario(r, usize)
 	w := newWorld(sc)
 	out := histOut{Kind: "hist", Idx: idx, Names: sc.nNames, Pools: sc.jPools(), PagesBad: []pageBad{}}
@@ -921,13 +990,27 @@ func genHistory(seed int64, idx int, maxops int, usize int, c02, c09 bool, uptoS
 		nq, nl := 3+r.Intn(4), 4+r.Intn(5)
 		var qs []query
 		var los []lopts
+		var storedNow []int
+		for hh := range w.objs {
+			for k := range stored[hh] {
+				storedNow = append(storedNow, k)
+			}
+		}
+		sort.Ints(storedNow)
 		for j := 0; j < nq; j++ {
-			qs = append(qs, allQ[r.Intn(len(allQ))])
+			q := allQ[r.Intn(len(allQ))]
+			if len(storedNow) > 0 && r.Intn(10) < 7 { // arguments taken from a triple that is stored somewhere
+				q = sc.queryFrom(sc.univ[storedNow[r.Intn(len(storedNow))]], r.Intn(11))
+			}
+			qs = append(qs, q)
 		}
 		for j := 0; j < nl; j++ {
 			los = append(los, sc.randomLopts(r))
 		}
 		pq := allQ[r.Intn(len(allQ))]
+		if len(storedNow) > 0 && r.Intn(10) < 8 {
+			pq = sc.queryFrom(sc.univ[storedNow[r.Intn(len(storedNow))]], r.Intn(11))
+		}
 		plo := sc.randomLopts(r)
 		pn := 1 + r.Intn(3)
 		if c02 && len(w.objs) > 0 {
@@ -935,8 +1018,9 @@ func genHistory(seed int64, idx int, maxops int, usize int, c02, c09 bool, uptoS
 			out.Lookups += len(w.objs) * len(allQ)
 		}
 		if c09 && len(w.objs) > 0 {
-			ob.C09 = append(ob.C09, jc09{qs, los, sc.digestState(w.objs, qs, los)})
-			out.Lookups += len(w.objs) * len(qs) * len(los)
+			ne := nonEmpty(w.objs, ob)
+			ob.C09 = append(ob.C09, jc09{qs, los, sc.digestState(ne, qs, los)})
+			out.Lookups += len(ne) * len(qs) * len(los)
 			gi := len(w.objs) - 1
 			if o.kind == "add" || o.kind == "rem" {
 				gi = o.h
@@ -951,6 +1035,7 @@ func genHistory(seed int64, idx int, maxops int, usize int, c02, c09 bool, uptoS
 			}
 		}
 		out.Steps = append(out.Steps, jstep{o.json(), ob})
+		out.LkStats = lkStats
 		if uptoStep >= 0 && i == uptoStep {
 			break
 		}
@@ -1084,9 +1169,13 @@ type detailIn struct {
 	Los []lopts `json:"los"`
 }
 
-func runDetail(seed int64, idx, step, maxops, usize int, spec string) {
-	w, _, _ := genHistory(seed, idx, maxops, usize, false, false, step)
+func runDetail(seed int64, idx, step, maxops, usize int, spec string, neOnly bool) {
+	w, out, _ := genHistory(seed, idx, maxops, usize, false, false, step)
 	sc := w.sc
+	if neOnly {
+		ne := nonEmpty(w.objs, out.Steps[len(out.Steps)-1].Obs)
+		w.objs = ne
+	}
 	var in detailIn
 	if spec == "" {
 		in.Qs = sc.allQueries()
@@ -1121,6 +1210,7 @@ func main() {
 	step := flag.Int("step", 0, "step index for -mode detail")
 	spec := flag.String("spec", "", "JSON {qs, los} for -mode detail (default: all queries, default options)")
 	first := flag.Int("first", 0, "index of the first history")
+	neOnly := flag.Bool("ne", false, "-mode detail: only graph objects that hold triples (as the C09 digests)")
 	flag.Parse()
 	initVocabulary()
 	switch *mode {
@@ -1132,7 +1222,7 @@ func main() {
 	case "exhaustive":
 		runExhaustive(*length, *c02)
 	case "detail":
-		runDetail(*seed, *hist, *step, *maxops, *usize, *spec)
+		runDetail(*seed, *hist, *step, *maxops, *usize, *spec, *neOnly)
 	case "shared":
 		runShared(8, *n)
 	default:
